@@ -69,7 +69,10 @@ class RejectionMonitor:
             repr(rule)
             rule.antecedent.postfix()
         except Exception as ex:
-            ctx.violation(f"an accepted rule cannot be exported ({type(ex).__name__})", {"text": text, "error": repr(ex)[:200]}, "text", repr(ex)[:200])
+            mech = f"an accepted rule cannot be exported ({type(ex).__name__})"
+            if isinstance(ex, RecursionError):
+                mech = "an accepted rule cannot be exported or evaluated (RecursionError)"  # one defect, whichever walk trips first
+            ctx.violation(mech, {"text": text[:300], "error": repr(ex)[:200]}, "text", repr(ex)[:200])
             return
         outs = {}
         for c in rule.consequent.conclusions:
@@ -94,6 +97,8 @@ class RejectionMonitor:
                     v.value = saved[k]
         except Exception as ex:
             mech = f"an accepted rule cannot be evaluated ({type(ex).__name__})"
+            if isinstance(ex, RecursionError):
+                mech = "an accepted rule cannot be exported or evaluated (RecursionError)"
             if isinstance(ex, ValueError) and ("expected xy to contain coordinate pairs" in str(ex) or "coefficients (one for each input variable" in str(ex)):
                 mech = "an accepted rule cannot be evaluated: a term imported without its parameters (Discrete without pairs, Linear without coefficients) raises ValueError at evaluation"
             ctx.violation(mech, {"text": text, "error": repr(ex)[:300]}, "a degree", repr(ex)[:300])
